@@ -789,9 +789,50 @@ macro_rules! for_types {
     ($f:ident, $tier:expr, $budget:expr, $report:expr, $($t:ty),*) => {$( $f::<$t>($tier, $budget, $report); )*};
 }
 
+/// Z family: runs of zeros (and of one other digit) of every length around the 8-digit block sizes,
+/// followed by tails that start another token (a sign, a digit behind a sign, garbage, a blank):
+/// block-wise scanners must stop exactly where the digit run ends.
+fn z_family<I: ScanInt>(_tier: Tier, _budget: &Budget, report: &mut Report) {
+    let tails: [&[u8]; 14] = [b"", b"-", b"-5", b"-0", b"--5", b"+5", b"x", b" 5", b"-55555555", b"-x", b"1", b"-00000000", b"-1234567", b"x00000000"];
+    let mut strings: Vec<Vec<u8>> = Vec::new();
+    for n in [6usize, 7, 8, 9, 15, 16, 17, 23, 24, 25] {
+        for fill in [b'0', b'1'] {
+            for sign in [&b""[..], b"-"] {
+                for tail in tails {
+                    let mut s = sign.to_vec();
+                    s.extend(std::iter::repeat(fill).take(n));
+                    s.extend_from_slice(tail);
+                    strings.push(s);
+                }
+            }
+        }
+    }
+    let total = mc_core::par::par_fold(
+        strings.len(),
+        mc_core::threads(),
+        Report::new,
+        |acc, i| {
+            let s = &strings[i];
+            acc.states += 1;
+            for offset in [0usize, 1] {
+                for b in [s.len(), s.len().saturating_sub(1), 8, 9, 16, 17] {
+                    if b <= s.len() {
+                        check_case::<I>(s, offset, b, false, "Z", acc);
+                        check_case::<I>(s, offset, b, true, "Z", acc);
+                    }
+                }
+            }
+        },
+        |a, b| a.merge(b),
+    );
+    report.merge(total);
+    report.completed.push(format!("Z family for {}: {} strings (runs of 6..25 zeros / ones, optional sign, 14 tails) x offsets {{0,1}} x buffered {{all, all-1, 8, 9, 16, 17}} x rest at once / byte-wise", I::NAME, strings.len()));
+}
+
 pub fn run(tier: Tier, report: &mut Report) {
     let budget = Budget::new(tier.pick(35.0, 1500.0));
     k2_family(report);
+    for_types!(z_family, tier, &budget, report, i8, u8, i32, u64, i128);
     extreme_offsets::<u32>(report);
     extreme_offsets::<i64>(report);
     extreme_offsets::<i8>(report);
